@@ -209,8 +209,16 @@ pub fn gen_case_scheduled(seed: u64, k: u64, tier: Tier) -> Case {
 /// produced by this analyser from those sources (and the file cache holds nothing else).
 pub fn gen_case_modinfo(seed: u64, k: u64) -> Case {
   let mut rng = Rng::for_case(seed ^ 0x4a53_5213, k);
-  let cfg = JGenCfg { modinfo: 100, partial_info: 0, stale_info: 0, dirty_cache: false, manifest_faults: 0, faults: 0, locker: 0, weird_exports: 3, stale_meta: 5, ..Default::default() };
-  let c = gen_jcase(&mut rng, &cfg);
+  // every third world also has text / bytes imports of package files (with the unstable options on or
+  // off): those are outside the registry model and are decided by the two real builds alone
+  let with_assets = k % 3 == 2;
+  let cfg = JGenCfg { modinfo: 100, partial_info: 0, stale_info: 0, dirty_cache: false, manifest_faults: 0, faults: 0, locker: 0, weird_exports: 3, stale_meta: 5,
+    asset_imports: if with_assets { 40 } else { 0 }, ..Default::default() };
+  let mut c = gen_jcase(&mut rng, &cfg);
+  if with_assets {
+    c.unstable_text = rng.chance(80);
+    c.unstable_bytes = rng.chance(80);
+  }
   // the same registry without embedded module graphs
   let mut plain = c.clone();
   let mut stripped = 0;
@@ -257,7 +265,22 @@ pub fn gen_case_modinfo(seed: u64, k: u64) -> Case {
     direct.push(format!("the graph built from embedded module information differs from the graph built by parsing the same sources: {}", what));
   }
   let used_info = with_info.log.iter().filter(|l| l.cache_setting == "only" && !l.specifier.ends_with("meta.json")).count();
-  let mut case = case_of(&c, direct, vec![(format!("c13b_manifests_with_info_{}", stripped.min(6)), 1), (format!("c13b_probed_files_{}", used_info.min(8)), 1)]);
+  let dist = vec![(format!("c13b_manifests_with_info_{}", stripped.min(6)), 1), (format!("c13b_probed_files_{}", used_info.min(8)), 1), (format!("c13b_asset_imports_{}", with_assets), 1)];
+  if with_assets {
+    let n_ext = with_info.graph.modules().filter(|m| matches!(m, deno_graph::Module::External(_))).count();
+    let mut dist = dist;
+    dist.push((format!("c13b_asset_modules_{}", n_ext.min(4)), 1));
+    return Case {
+      input: Sx::L(vec![Sx::A(31338)]),
+      obs: Sx::L(vec![]),
+      meta: serde_json::json!({"stream": "registry with/without embedded module info, asset imports (relational only)", "world": describe(&c),
+        "unstable_text_imports": c.unstable_text, "unstable_bytes_imports": c.unstable_bytes, "graph_with_info": a, "graph_parsed": b}),
+      nontrivial: used_info >= 1 && with_info.graph.modules().count() >= 2,
+      dist,
+      direct_violations: direct,
+    };
+  }
+  let mut case = case_of(&c, direct, dist);
   case.nontrivial = used_info >= 1 && with_info.graph.modules().count() >= 2;
   case
 }
